@@ -1,6 +1,7 @@
 /-
-Projection without GROUP BY (`projectAndGroupBy`, plain case): the planner copies aliases one after the
-other; with fresh alias names every output column shows what the reference's simultaneous projection shows.
+Projection without GROUP BY (`projectAndGroupBy`, plain case): the planner reads every projected binding of
+a row and then writes the aliases; every output column shows what the reference's simultaneous projection
+shows, whatever the aliases are called (an alias may be spelled like a pattern binding: 1cfe61b).
 -/
 import BW.Proofs.PlannerStep11
 set_option linter.unusedSimpArgs false
@@ -26,49 +27,44 @@ theorem get_set (r : Row) (k : Bytes) (v : Cell) (k' : Bytes) :
     · have : (k == k') = false := by simpa using fun e => hk e.symm
       cases r.get k' <;> simp [hk, this]
 
-/-- The model's projection of one row: aliases are copied one after the other. -/
-def seqStep (r : Row) (p : Proj) : Row :=
-  match r.get p.binding with
-  | some c => r.set p.alias c
-  | none => r
-
-def seqProj (ps : List Proj) (r : Row) : Row := ps.foldl seqStep r
+theorem get_filter_ne (r : Row) (a k : Bytes) (h : k ≠ a) :
+    Row.get (r.filter fun kv => kv.1 != a) k = r.get k := by
+  unfold Row.get
+  congr 1
+  induction r with
+  | nil => rfl
+  | cons x r ih =>
+    by_cases hx : x.1 = a
+    · have hf : (x.1 != a) = false := by simp [hx]
+      have hne : (x.1 == k) = false := by
+        rw [hx]; exact beq_false_of_ne (fun e => h e.symm)
+      rw [List.filter_cons_of_neg (p := fun kv : Bytes × Cell => kv.1 != a) (by simp [hf]), List.find?_cons_of_neg (by simp [hne])]
+      exact ih
+    · have hf : (x.1 != a) = true := by simp [hx]
+      rw [List.filter_cons_of_pos (p := fun kv : Bytes × Cell => kv.1 != a) (by exact hf)]
+      by_cases hk : (x.1 == k) = true
+      · rw [List.find?_cons_of_pos (by exact hk), List.find?_cons_of_pos (by exact hk)]
+      · rw [List.find?_cons_of_neg (by exact hk), List.find?_cons_of_neg (by exact hk)]
+        exact ih
 
 theorem projectPlain_rows (ps : List Proj) (rows : List Row) :
-    ps.foldl (fun rows p => rows.map fun r => match r.get p.binding with
-        | some c => r.set p.alias c
-        | none => r) rows = rows.map (seqProj ps) := by
-  induction ps generalizing rows with
-  | nil => simp only [List.foldl_nil]; rw [show seqProj [] = id from rfl, List.map_id]
-  | cons p ps ih =>
-    simp only [List.foldl_cons]
-    rw [ih]
-    simp only [List.map_map]
-    apply List.map_congr_left
-    intro r _
-    simp [seqProj, seqStep]
+    (rows.map (projectRow ps)) = rows.map fun r => ps.foldl (projStep r) r := rfl
 
-/-- Aliases are fresh names: no alias is the input of a projection or the output of another one. -/
-def FreshAliases (ps : List Proj) : Prop :=
-  (∀ p ∈ ps, ∀ q ∈ ps, p.alias ≠ [] → q.binding ≠ p.alias) ∧ (ps.map Proj.out).Nodup
-
-theorem seqProj_get_other (ps : List Proj) (r : Row) (k : Bytes) (hk : ∀ p ∈ ps, p.alias ≠ k) :
-    (seqProj ps r).get k = r.get k := by
-  induction ps generalizing r with
+theorem sim_get_other (ps : List Proj) (r out : Row) (k : Bytes) (hk : ∀ p ∈ ps, p.alias ≠ k) :
+    (ps.foldl (projStep r) out).get k = out.get k := by
+  induction ps generalizing out with
   | nil => rfl
   | cons p ps ih =>
-    simp only [seqProj, List.foldl_cons]
-    have := ih (seqStep r p) (fun q hq => hk q (List.mem_cons_of_mem _ hq))
-    simp only [seqProj] at this
-    rw [this]
-    unfold seqStep
+    simp only [List.foldl_cons]
+    rw [ih _ (fun q hq => hk q (List.mem_cons_of_mem _ hq))]
+    have hne : k ≠ p.alias := fun e => hk p List.mem_cons_self e.symm
+    unfold projStep
     cases r.get p.binding with
-    | none => rfl
+    | none => exact get_filter_ne out p.alias k hne
     | some c =>
       simp only
       rw [get_set]
-      have : k ≠ p.alias := fun e => hk p List.mem_cons_self e.symm
-      simp [this]
+      simp [hne]
 
 def specStep (r : Row) (out : Row) (p : Proj) : Row :=
   if p.out = [] then out else out.set p.out ((r.get p.binding).getD .null)
@@ -108,50 +104,48 @@ theorem spec_get (ps : List Proj) (r : Row) (hn : (ps.map Proj.out).Nodup) :
 theorem out_of_alias (p : Proj) (h : p.alias ≠ []) : p.out = p.alias := by unfold Proj.out; simp [h]
 theorem out_of_noalias (p : Proj) (h : p.alias = []) : p.out = p.binding := by unfold Proj.out; simp [h]
 
-theorem seq_get_alias (ps : List Proj) (hb : ∀ p ∈ ps, p.binding ≠ [])
-    (hf : ∀ p ∈ ps, ∀ q ∈ ps, p.alias ≠ [] → q.binding ≠ p.alias) (hn : (ps.map Proj.out).Nodup) :
-    ∀ r, ∀ p ∈ ps, p.alias ≠ [] → ∀ c, r.get p.binding = some c → (seqProj ps r).get p.alias = some c := by
+/-- Distinct output names: two projections with the same output name are the same projection. -/
+theorem out_inj (ps : List Proj) (hn : (ps.map Proj.out).Nodup) :
+    ∀ p ∈ ps, ∀ q ∈ ps, p.out = q.out → p = q := by
+  induction ps with
+  | nil => intro p hp; cases hp
+  | cons a l ih =>
+    simp only [List.map_cons, List.nodup_cons] at hn
+    intro p hp q hq e
+    rcases List.mem_cons.mp hp with ep | hp'
+    · rcases List.mem_cons.mp hq with eq | hq'
+      · rw [ep, eq]
+      · exact absurd (List.mem_map.mpr ⟨q, hq', (ep ▸ e).symm⟩) hn.1
+    · rcases List.mem_cons.mp hq with eq | hq'
+      · exact absurd (List.mem_map.mpr ⟨p, hp', eq ▸ e⟩) hn.1
+      · exact ih hn.2 p hp' q hq' e
+
+theorem sim_get_alias (ps : List Proj) (r : Row) (hn : (ps.map Proj.out).Nodup) :
+    ∀ out0, ∀ p ∈ ps, p.alias ≠ [] → ∀ c, r.get p.binding = some c → (ps.foldl (projStep r) out0).get p.alias = some c := by
   induction ps with
   | nil => intro _ p hp; cases hp
   | cons q ps ih =>
-    intro r p hp hpa c hc
+    intro out0 p hp hpa c hc
     simp only [List.map_cons, List.nodup_cons] at hn
-    simp only [seqProj, List.foldl_cons]
+    simp only [List.foldl_cons]
     rcases List.mem_cons.mp hp with e | hp'
     · subst e
       have hother : ∀ q' ∈ ps, q'.alias ≠ p.alias := by
         intro q' hq' e
         have : q'.out = p.out := by rw [out_of_alias p hpa, out_of_alias q' (e ▸ hpa), e]
         exact hn.1 (this ▸ List.mem_map.mpr ⟨q', hq', rfl⟩)
-      have := seqProj_get_other ps (seqStep r p) p.alias hother
-      simp only [seqProj] at this
-      rw [this]
-      unfold seqStep
+      rw [sim_get_other ps r _ p.alias hother]
+      unfold projStep
       simp only [hc]
       rw [get_set]; simp
-    · have ih' := ih (fun p hp => hb p (List.mem_cons_of_mem _ hp))
-        (fun a ha b hb' => hf a (List.mem_cons_of_mem _ ha) b (List.mem_cons_of_mem _ hb')) hn.2
-      have hkeep : (seqStep r q).get p.binding = some c := by
-        unfold seqStep
-        cases hq : r.get q.binding with
-        | none => exact hc
-        | some c' =>
-          simp only
-          rw [get_set]
-          have : p.binding ≠ q.alias := by
-            by_cases hqa : q.alias = []
-            · rw [hqa]; exact hb p hp
-            · exact hf q List.mem_cons_self p hp hqa
-          simp [this, hc]
-      have := ih' (seqStep r q) p hp' hpa c hkeep
-      simp only [seqProj] at this
-      exact this
+    · exact ih hn.2 _ p hp' hpa c hc
 
-/-- **Projection.** With fresh alias names, copying the aliases one after the other (the planner) shows, in
-    every output column, what the simultaneous projection of the reference shows. -/
-theorem projection_spec (ps : List Proj) (r : Row) (hb : ∀ p ∈ ps, p.binding ≠ []) (hf : FreshAliases ps)
-    (hr : ∀ p ∈ ps, r.has p.binding = true) :
-    ∀ p ∈ ps, (seqProj ps r).get p.out = (project ps r).get p.out := by
+/-- **Projection.** The planner's projection of a row (read every projected binding, then write the aliases)
+    shows, in every output column, what the simultaneous projection of the reference shows — for any
+    statement whose output names are distinct, whatever the aliases are called. -/
+theorem projection_spec (ps : List Proj) (r : Row) (hb : ∀ p ∈ ps, p.binding ≠ [])
+    (hn : (ps.map Proj.out).Nodup) (hr : ∀ p ∈ ps, r.has p.binding = true) :
+    ∀ p ∈ ps, (projectRow ps r).get p.out = (project ps r).get p.out := by
   intro p hp
   obtain ⟨c, hc⟩ : ∃ c, r.get p.binding = some c := by
     have := hr p hp
@@ -163,17 +157,19 @@ theorem projection_spec (ps : List Proj) (r : Row) (hb : ∀ p ∈ ps, p.binding
     by_cases ha : p.alias = []
     · rw [out_of_noalias p ha]; exact hb p hp
     · rw [out_of_alias p ha]; exact ha
-  rw [project_eq, spec_get ps r hf.2 [] p hp hone, hc]
+  rw [project_eq, spec_get ps r hn [] p hp hone, hc]
   simp only [Option.getD_some]
+  unfold projectRow
   by_cases ha : p.alias = []
   · rw [out_of_noalias p ha]
-    rw [seqProj_get_other ps r p.binding]
+    rw [sim_get_other ps r r p.binding]
     · exact hc
     · intro q hq e
-      by_cases hqa : q.alias = []
-      · rw [hqa] at e; exact hb p hp e.symm
-      · exact hf.1 q hq p hp hqa e.symm
+      have hqa : q.alias ≠ [] := by rw [e]; exact hb p hp
+      have : q = p := out_inj ps hn q hq p hp (by rw [out_of_alias q hqa, out_of_noalias p ha, e])
+      rw [this] at hqa
+      exact hqa ha
   · rw [out_of_alias p ha]
-    exact seq_get_alias ps hb hf.1 hf.2 r p hp ha c hc
+    exact sim_get_alias ps r hn r p hp ha c hc
 
 end BW.Proofs.Projection
